@@ -312,6 +312,10 @@ def insertion_effect(model, X, insertions, left=False, args=None, func=predict,
 	"""
 
 	additional_func_kwargs = additional_func_kwargs or {}
+	if len(insertions) > 0 and (insertions[:, 0].min() < 0 or 
+		insertions[:, 0].max() >= X.shape[0]):
+		raise ValueError("Insertions must refer to an example index in X.")
+
 	X_var = []
 
 	for i in range(X.shape[0]):
